@@ -417,8 +417,10 @@ def teleport(
             and isinstance(state.grid[position], Telepod)
             and state.grid[position].color == telepod.color
         ]
-        i = rng.choice(len(positions))
-        state.agent.position = positions[i]
+        # a telepod without a same-colored partner leads nowhere
+        if positions:
+            i = rng.choice(len(positions))
+            state.agent.position = positions[i]
 
 
 def factory(name: str, **kwargs) -> TransitionFunction:
